@@ -833,6 +833,8 @@ func NewInferer() *Inferer {
 	in.Ctors["N"] = &CtorInfo{Union: "U"}
 	in.Ctors["Some"] = &CtorInfo{Union: "Opt", Params: []string{"T"}, Payload: Con("T")}
 	in.Ctors["None"] = &CtorInfo{Union: "Opt", Params: []string{"T"}}
+	in.Ctors["TagA"] = &CtorInfo{Union: "Tag", Params: []string{"T"}}
+	in.Ctors["TagB"] = &CtorInfo{Union: "Tag", Params: []string{"T"}}
 	mono := func(name, ty string) { in.Globals[name] = &Scheme{T: in.ParseType(ty, nil)} }
 	mono("trI", "int->int")
 	mono("trS", "string->string")
